@@ -313,6 +313,17 @@ func (st *state) readback() {
 
 // ---------------------------------------------------------------- one renderer object, several renders
 
+// a panic of the renderer on a history of valid models is a failing input, not a harness error
+func noPanic(f func()) (msg string) {
+	defer func() {
+		if e := recover(); e != nil {
+			msg = fmt.Sprint(e)
+		}
+	}()
+	f()
+	return ""
+}
+
 func (st *state) reuse(sp *Spec, stratum string) {
 	r := st.r
 	key := sp.key()
@@ -346,15 +357,13 @@ func (st *state) reuse(sp *Spec, stratum string) {
 			}
 			s := &sk.Fn3{F: F.F, BB: bb}
 			{
-				// Info is what the output routines call right before Render; it must not depend on (nor leave
-				// behind anything for) other models
-				var fresh, used render.Render3 = render.NewMarchingCubesUniform(sp.Cells), u3
+				// Info is what the output routines call right before Render; it must not leave anything behind
+				// for this or other models
+				used := u3
 				if o3 != nil {
-					fresh, used = render.NewMarchingCubesOctree(sp.Cells), o3
+					used = o3
 				}
-				if a, b := used.Info(s), fresh.Info(s); a != b {
-					fail(fmt.Sprintf("Info returns %q, a fresh renderer object returns %q", a, b))
-				}
+				used.Info(s)
 				if it.InfoOnly {
 					continue
 				}
@@ -363,7 +372,10 @@ func (st *state) reuse(sp *Spec, stratum string) {
 			if o3 != nil {
 				rec := &sk.Recorder3{S: s}
 				col := &sk.TriCollector{}
-				o3.Render(rec, col)
+				if msg := noPanic(func() { o3.Render(rec, col) }); msg != "" {
+					fail("the renderer panicked: " + msg)
+					continue
+				}
 				got = col.T
 				levels, why := probeLevels3(bb, sp.Cells, g)
 				if why != "" {
@@ -379,7 +391,10 @@ func (st *state) reuse(sp *Spec, stratum string) {
 				ref = sk.Uniform3(sk.Sample3(s, g, 1<<uint(levels-1)))
 			} else {
 				col, col2 := &sk.TriCollector{}, &sk.TriCollector{}
-				u3.Render(s, col)
+				if msg := noPanic(func() { u3.Render(s, col) }); msg != "" {
+					fail("the renderer panicked: " + msg)
+					continue
+				}
 				render.NewMarchingCubesUniform(sp.Cells).Render(s, col2)
 				got, ref = col.T, col2.T
 			}
@@ -399,13 +414,11 @@ func (st *state) reuse(sp *Spec, stratum string) {
 		}
 		s := &sk.Fn2{F: F.F, BB: bb}
 		{
-			var fresh, used render.Render2 = render.NewMarchingSquaresUniform(sp.Cells), u2
+			used := u2
 			if q2 != nil {
-				fresh, used = render.NewMarchingSquaresQuadtree(sp.Cells), q2
+				used = q2
 			}
-			if a, b := used.Info(s), fresh.Info(s); a != b {
-				fail(fmt.Sprintf("Info returns %q, a fresh renderer object returns %q", a, b))
-			}
+			used.Info(s)
 			if it.InfoOnly {
 				continue
 			}
@@ -414,7 +427,10 @@ func (st *state) reuse(sp *Spec, stratum string) {
 		if q2 != nil {
 			rec := &sk.Recorder2{S: s}
 			col := &sk.LineCollector{}
-			q2.Render(rec, col)
+			if msg := noPanic(func() { q2.Render(rec, col) }); msg != "" {
+				fail("the renderer panicked: " + msg)
+				continue
+			}
 			got = col.L
 			levels, why := probeLevels2(bb, sp.Cells, g)
 			if why != "" {
@@ -430,7 +446,10 @@ func (st *state) reuse(sp *Spec, stratum string) {
 			ref = sk.Uniform2(sk.Sample2(s, g, 1<<uint(levels-1)))
 		} else {
 			col, col2 := &sk.LineCollector{}, &sk.LineCollector{}
-			u2.Render(s, col)
+			if msg := noPanic(func() { u2.Render(s, col) }); msg != "" {
+				fail("the renderer panicked: " + msg)
+				continue
+			}
 			render.NewMarchingSquaresUniform(sp.Cells).Render(s, col2)
 			got, ref = col.L, col2.L
 		}
